@@ -13,4 +13,5 @@ let table : (string * (z list -> z list)) list = [
   ("times", run_times);
   ("history", run_history);
   ("session", run_session);
+  ("client", run_client);
 ]
